@@ -229,6 +229,11 @@ class Gen:
             return [K("BOOL"), O("#", True), K("TRUE" if b else "FALSE", True)], ["bool", b]
         if kind in ("lit.string", "lit.wstring", "lit.string.typed"):
             chars = "".join(self.pick("abc XYZ019_-+*/(){}[];:.,!?<>=") for _ in range(r.randint(0, 8)))
+            if self.ok("lit.string.otherquote") and self.chance(0.15):
+                # the other kind of quote mark is an ordinary character of a string, also first and last
+                self.atom("lit.string.otherquote")
+                oq = "'" if kind == "lit.wstring" else '"'
+                chars = self.pick([oq + chars, chars + oq, oq + chars + oq, oq])
             if self.ok("lit.string.escape") and self.chance(0.25):
                 # escape sequences other than the quote itself: kept as written (decoding is not demanded)
                 self.atom("lit.string.escape")
@@ -1086,7 +1091,8 @@ class Gen:
         multi = self.ok("addr.multidigit") and self.chance(0.3)
         if multi:
             self.atom("addr.multidigit")
-        comps = [self.rng.randint(0, 255 if multi else 9) for _ in range(self.rng.randint(1, 3))]
+        comps = [self.rng.randint(0, 255 if multi else 9) for _ in range(self.pick([1, 1, 2, 2, 3, 3, 4, 5]))]
+        self.atom("addr.depth.%d" % len(comps))
         text = "%" + loc + ("" if sz == "none" else sz) + ".".join(str(c) for c in comps)
         self.addrs.append([loc, "Nil" if sz == "none" else sz, comps])
         return [L(text)], [loc, "Nil" if sz == "none" else sz, comps]
